@@ -131,4 +131,10 @@ W2x10mat == <<<<1, 0, 2, 0, 3, 0, 4, 0, 5, 6>>, <<0, 7, 0, 8, 0, 9, 0, 1, 2, 3>>
 W2x10 == MkT(O2, S10, W2x10mat, NoMd, NoMd, "OTU table", "")
 \* ten observations (the text slicer renumbers kept rows; positions 8+ matter)
 W10x2 == MkT(S10, O2, [j \in 1..10 |-> <<W2x10mat[1][j], W2x10mat[2][j]>>], NoMd, NoMd, "OTU table", "")
+\* twelve IDs on the sliced axis: kept positions mix one- and two-digit indices (2 and 10, 11 and 1 ...), which is
+\* where an index remapping keyed by text or sorted as text goes wrong
+S12 == S10 \o <<"t2", "t3">>
+W2x12mat == <<<<1, 0, 2, 0, 3, 0, 4, 0, 5, 6, 7, 0>>, <<0, 7, 0, 8, 0, 9, 0, 1, 2, 3, 0, 4>>>>
+W2x12 == MkT(O2, S12, W2x12mat, NoMd, NoMd, "OTU table", "")
+W12x2 == MkT(S12, O2, [j \in 1..12 |-> <<W2x12mat[1][j], W2x12mat[2][j]>>], NoMd, NoMd, "OTU table", "")
 =============================================================================
